@@ -579,9 +579,21 @@ def gen_merger_case(rng, stats, focus="C04"):
         multi = [k for k in allkeys if sum(1 for _, es in srcs for kk, _ in es if kk == k) >= 2]
         failkey = rng.pick(multi) if multi and rng.chance(3, 4) else (rng.pick(allkeys) if allkeys else b"zz")
     marg = {"union": "merge=union", "lcp": "merge=lcp", "none": "merge=none", "dupsort": "merge=none dupsort=1", "fail": "merge=fail:%s" % hx(failkey or b"")}[mode]
-    lines.append("m.new 1 " + marg + (" dupsort=1" if with_dupsort else ""))
-    for kind, es in srcs:
+    margs = marg + (" dupsort=1" if with_dupsort else "")
+    # sometimes the last two (or more) sources are wrapped in a NESTED merger with the same configuration, added as one source
+    nest = mode != "fail" and len(srcs) >= 2 and rng.chance(1, 4)
+    inner = srcs[len(srcs) - rng.pick([1, 2, 2, 3]):] if nest else []
+    outer = srcs[:len(srcs) - len(inner)]
+    if nest:
+        stats.bump("merger_nested")
+        lines.append("m.new 2 " + margs)
+        for kind, es in inner:
+            lines.append("m.src 2 kind=%s bs=%d ri=%d %s" % (kind, rng.pick([16, 32, 64]), rng.pick([1, 2, 3]), " ".join("%s %s" % (hx(k), hx(v)) for k, v in es)))
+    lines.append("m.new 1 " + margs)
+    for kind, es in outer:
         lines.append("m.src 1 kind=%s bs=%d ri=%d %s" % (kind, rng.pick([16, 32, 64]), rng.pick([1, 2, 3]), " ".join("%s %s" % (hx(k), hx(v)) for k, v in es)))
+    if nest:
+        lines.append("m.src 1 kind=n sub=2")
     # drain
     total = sum(len(es) for _, es in srcs)
     lines.append("m.it 1 10 iter")
@@ -647,6 +659,11 @@ def oracle_merger(res):
             mode = "union" if mg == "union" else "lcp" if mg == "lcp" else "fail" if mg.startswith("fail:") else "dupsort" if kvs.get("dupsort") == "1" else "none"
             mergers[t[1]] = {"mode": mode, "failkey": unhx(mg[5:]) if mode == "fail" else None, "srcs": []}
         elif op == "m.src":
+            kvs = dict(a.split("=", 1) for a in t[2:] if "=" in a)
+            if kvs.get("kind") == "n":
+                sub = mergers[kvs["sub"]]
+                mergers[t[1]]["srcs"].append([(k, v) for k, v, _ in merged_content(sub["mode"], sub["srcs"])])
+                continue
             vals = [a for a in t[2:] if "=" not in a]
             mergers[t[1]]["srcs"].append([(unhx(vals[j]), unhx(vals[j + 1])) for j in range(0, len(vals), 2)])
         elif op == "m.it":
